@@ -185,3 +185,21 @@ func sanitize(s string) string {
 	}
 	return t
 }
+
+
+// CheckWith runs the script on one named solver only (thorough tier: an
+// independent second opinion on an obligation another solver discharged).
+func CheckWith(dir, name, script, solver string, timeoutS int) (Status, float64) {
+	file := filepath.Join(dir, sanitize(name)+".x.smt2")
+	if err := os.WriteFile(file, []byte(header+script), 0o644); err != nil {
+		return Unknown, 0
+	}
+	defer os.Remove(file)
+	for _, s := range Solvers {
+		if s.Name == solver {
+			st, _, el := runOne(context.Background(), s, file, timeoutS, 0)
+			return st, el
+		}
+	}
+	return Unknown, 0
+}
